@@ -454,7 +454,8 @@ def get_phase_blocks(
         if variant.is_snv():
             stats.add_heterozygous_snvs(1)
 
-        if phase is None:
+        if phase is None or phase.block_id is None:
+            # a phased genotype whose PS value is missing ('.') does not belong to any phase set
             stats.add_unphased()
             continue
 
